@@ -301,7 +301,7 @@ def summarize(m):
         outcomes={k: v for k, v in m["hist"].items() if v}, entry_points={k: v for k, v in m["entries"].items() if v},
         configs_seen=bin(m["cfgs"]).count("1"), capacities=sorted(m["caps"])[:40], distinct_lengths=len(m["lens"]),
         max_length=m["lens_max"], alignments_mod32_seen=bin(m["aligns"]).count("1"),
-        placements=[n for i, n in enumerate(["end_abutting_guard_page", "start_after_guard_page", "mid_aligned"]) if m["places"] >> i & 1],
+        placements=[n for i, n in enumerate(["end_abutting_guard_page", "start_after_guard_page", "mid_aligned", "page_boundary_inside_buffer"]) if m["places"] >> i & 1],
         scanner_functions_entered=[n for i, n in enumerate(BACKEND_BITS) if m["backends"] >> i & 1],
         counters={k: v for k, v in sorted(m["counters"].items()) if not k.startswith("suffix_used:")} if len(m["counters"]) < 400 else dict(list(sorted(m["counters"].items()))[:400]),
         maxima=m["maxes"])
